@@ -1147,7 +1147,10 @@ impl<'a> Run<'a> {
                     "drop" => self.shadow_retain(fi, |s| s.peer != peer),
                     "drop_stale" => self.shadow_retain(fi, |s| !(s.peer == peer && s.src.is_stale())),
                     "drop_no_llgr" => self.shadow_retain(fi, |s| !(s.peer == peer && has(&s.attr, NO_LLGR))),
-                    "drop_llgr_stale" => self.shadow_retain(fi, |s| !(s.peer == peer && (s.src.is_llgr_stale() || has(&s.attr, LLGR_STALE)))),
+                    // shadow bookkeeping only (a mismatch is inconclusive, never a verdict): the purge removes the
+                    // paths whose *source* is marked LLGR-stale; the LLGR_STALE community alone does not count
+                    // (repo fix "drop_llgr_stale must not purge fresh paths ...")
+                    "drop_llgr_stale" => self.shadow_retain(fi, |s| !(s.peer == peer && s.src.is_llgr_stale())),
                     _ => {}
                 }
                 if self.deferring[fi] && !changes.is_empty() {
